@@ -2,6 +2,7 @@ package display
 
 import (
 	"fmt"
+	"strings"
 
 	"github.com/reeflective/readline/inputrc"
 	"github.com/reeflective/readline/internal/color"
@@ -261,7 +262,11 @@ func (e *Engine) displayLine() {
 
 	// Clear what follows the line, unless it ends on the last column: the cursor
 	// is still on that column then, and erasing from it erases the last character.
-	if e.lineCol != 0 {
+	// (Column 0 with nothing printed before it is not the end of a full row.)
+	lastLine := line[strings.LastIndex(line, "\n")+1:]
+	atMargin := e.lineCol == 0 && strutil.RealLength(lastLine)+e.startCols > 0
+
+	if !atMargin {
 		line += term.ClearLineAfter
 	}
 
@@ -270,7 +275,7 @@ func (e *Engine) displayLine() {
 	core.DisplayLine(&e.suggested, e.startCols)
 
 	// Adjust the cursor if the line fits exactly in the terminal width.
-	if e.lineCol == 0 {
+	if atMargin {
 		fmt.Print(term.NewlineReturn)
 		fmt.Print(term.ClearLineAfter)
 	}
